@@ -87,14 +87,18 @@ def step_of(pkt, cfg, h, tun, variant=None):
         if ha in ("yes", "free"):
             st.update({"name": tun["hostName"], "port": tun["hostPort"]})
         else:
-            variants = [(["H1"], "PE"), (["H2"], tun["hostPort"]), (["H1", "NUL", "H1"], tun["hostPort"])]
+            # (the last one: a refused name with the allowed host riding along as an alternate resource name - the request
+            # is for the name it names, whatever else it lists)
+            variants = [(["H1"], "PE", None), (["H2"], tun["hostPort"], None), (["H1", "NUL", "H1"], tun["hostPort"], None), (["H2"], tun["hostPort"], [tun["hostName"]])]
             if cfg["tokenAuth"] and cfg["sel"] != "roundrobin":
-                variants.append((["H1"], "PB" if tun["hostPort"] != "PB" else "PA"))
-            n, pt = variants[(h if variant is None else variant) % len(variants)]
+                variants.append((["H1"], "PB" if tun["hostPort"] != "PB" else "PA", None))
+            n, pt, alts = variants[(h if variant is None else variant) % len(variants)]
             if cfg["sel"] == "any" and not cfg["tokenAuth"]:
                 # 'any' without a token allows every host: a refusal cannot be provoked
-                n, pt = ["H1"], "PE"
+                n, pt, alts = ["H1"], "PE", None
             st.update({"name": n, "port": pt})
+            if alts and st["cls"] == "valid":
+                st.update({"cls": "alt", "alts": alts})
     elif k == "data":
         st["n"] = [0, 1, 17, 1500][h % 4]
     elif k == "other":
@@ -122,7 +126,7 @@ def gen_graph_scripts(work, seed, tier):
         tokenAuth, smartCard = cfg_of_core(c)
         # a refused channel request is run once per way of being refused (another port, another host, an embedded NUL,
         # a host the list allows but the token does not name)
-        nvar = 4 if ('"chan"' in a and '"no"' in a) else 1
+        nvar = 5 if ('"chan"' in a and '"no"' in a) else 1
         # the model's state after an accepted handshake does not remember WHICH of the matching mechanism sets the client
         # offered (nothing later may depend on it): with both mechanisms enabled a tunnel request is run once per
         # matching offer on the way there (cookie only, smart card only, both)
